@@ -148,6 +148,9 @@ def _setup(sc, variant):
   return ent
 
 
+SHIFTED = [0]
+
+
 def _run(ent, plan, record=False, global_mode=None):
   """2 steps on a fresh Data; plan: {launch index: 'desc' | permutation}."""
   import mujoco_warp as mjw
@@ -178,7 +181,11 @@ def _run(ent, plan, record=False, global_mode=None):
       if "trace" in ent:
         k0, n0, _ = ent["trace"][idx]
         if (k0, n0) != (key, n):
-          raise RuntimeError(f"launch {idx} is {key}/{n}, baseline had {k0}/{n0}: prefix diverged")
+          # an earlier reordered launch changed the control flow (e.g. the solver needed one iteration more or less), so launch
+          # numbers after it no longer name the same kernel: this choice is left at the default order and counted; the run is
+          # still a legal schedule and is compared like any other
+          SHIFTED[0] += 1
+          return None
       return "desc" if ch == "desc" else list(ch)
 
   before = world.counters()
@@ -206,7 +213,8 @@ def execute(scn):
   nl = len(trace)
   if nl > MAXLAUNCH[scn["scene"]]:
     raise RuntimeError(f"{nl} launches exceed MAXLAUNCH; enlarge it")
-  counts = dict(schedules=0, launches=0, order_sensitive_launches=0, extra_evaluations=0)
+  counts = dict(schedules=0, launches=0, order_sensitive_launches=0, extra_evaluations=0, choices_after_shifted_launch_sequence=0)
+  SHIFTED[0] = 0
   if np.any(base["count"]["overflow"] & 0xFF):
     raise RuntimeError("baseline reports a capacity overflow; scene must not overflow")
   if scn["kind"] == "global":
@@ -242,7 +250,9 @@ def execute(scn):
       if len(classes | {_outcome_class(base)}) > 1:
         counts["order_sensitive_launches"] += 1
     counts["extra_evaluations"] = max(0, counts["schedules"] - 1)
-    return c.result(nontrivial=nontrivial, key=util.sha(scn), counts=counts, info=dict(chunk=[scn["lo"], scn["hi"]]))
+    counts["choices_after_shifted_launch_sequence"] = SHIFTED[0]
+    counts["choices_after_shifted_launch_sequence"] = SHIFTED[0]
+  return c.result(nontrivial=nontrivial, key=util.sha(scn), counts=counts, info=dict(chunk=[scn["lo"], scn["hi"]]))
 
   # pairs: launches L1 in chunk, L2 > L1 sharing a written array, both descending
   nontrivial = False
@@ -262,4 +272,5 @@ def execute(scn):
       for v in c.violations[before:]:
         v["vkey"] = f"{k1}+{k2}:{v['vkey']}"
   counts["extra_evaluations"] = max(0, counts["schedules"] - 1)
+  counts["choices_after_shifted_launch_sequence"] = SHIFTED[0]
   return c.result(nontrivial=nontrivial, key=util.sha(scn), counts=counts, info=dict(chunk=[scn["lo"], scn["hi"]]))
